@@ -72,7 +72,7 @@ def ndarray2utpm(A):
     retval = zeros(shp,dtype=A[0])
 
     for na, a in enumerate(A):
-        retval[na] = a
+        retval[numpy.unravel_index(na, shp)] = a
 
     return retval
 
